@@ -98,9 +98,14 @@ def do_op(op, base, target, version, metafile, scratch, plen=1, alt=False, route
             os.makedirs(dest, exist_ok=True)
             # search directories: the content root itself, an empty directory, or a copy of r/a only
             search = os.path.join(base, "r")
-            if route in ("empty", "part"):
+            if route in ("empty", "part", "decoy"):
                 search = os.path.join(scratch, "search-" + route)
                 os.makedirs(search, exist_ok=True)
+                if route == "decoy":       # same names, same sizes, other bytes: hashed, rejected, nothing placed
+                    for key, comps in RELS.items():
+                        p = fpath(base, key)
+                        if os.path.isfile(p):
+                            write_file(os.path.join(search, "wrong", *comps), content("sys/decoy/" + key, os.path.getsize(p), 7))
                 if route == "part" and os.path.isfile(fpath(base, "r/a")):
                     shutil.copyfile(fpath(base, "r/a"), os.path.join(search, "a"))
             asm = Assembler([metafile], [search], dest)
